@@ -103,7 +103,6 @@ func loadEngine(repo, verifDir string, pkgPatterns []string) (*Engine, error) {
 		if e.anyPkg == nil {
 			e.anyPkg = p
 		}
-		e.indexFuncs(p)
 	}
 	// contract files: deps first (global), then per package
 	depFiles, _ := filepath.Glob(filepath.Join(verifDir, "contracts", "deps", "*.gsc"))
@@ -145,6 +144,9 @@ func loadEngine(repo, verifDir string, pkgPatterns []string) (*Engine, error) {
 		if err := e.addContractSet(cs, p); err != nil {
 			return nil, err
 		}
+	}
+	for _, p := range e.pkgs {
+		e.indexFuncs(p)
 	}
 	if err := e.registerAxioms(); err != nil {
 		return nil, err
@@ -189,6 +191,9 @@ func (e *Engine) addContractSet(cs *ContractSet, p *packages.Package) error {
 	e.csets = append(e.csets, cs)
 	for _, o := range cs.Opaque {
 		e.d.opaque[o] = true
+	}
+	for _, o := range cs.Transparent {
+		e.d.transparent[o] = true
 	}
 	for _, g := range cs.Ghosts {
 		if _, dup := e.ghosts[g.Name]; dup {
@@ -304,8 +309,20 @@ func funcKeyOf(f *types.Func) string {
 }
 
 func (e *Engine) indexFuncs(p *packages.Package) {
-	if !e.d.inModule(p.Types) {
+	if p.Types == nil || p.Syntax == nil {
 		return
+	}
+	if !e.d.inModule(p.Types) {
+		// dependency packages are indexed only when a (non-assumed) contract asks to verify one of their functions
+		want := false
+		for k, fc := range e.contracts {
+			if !fc.Assumed && strings.HasPrefix(k, p.PkgPath+".") && !strings.Contains(strings.TrimPrefix(k, p.PkgPath+"."), "/") {
+				want = true
+			}
+		}
+		if !want {
+			return
+		}
 	}
 	for _, file := range p.Syntax {
 		for _, dcl := range file.Decls {
